@@ -15,21 +15,23 @@ import (
 
 	"golang.org/x/tools/go/callgraph"
 	"golang.org/x/tools/go/callgraph/cha"
+	"golang.org/x/tools/go/callgraph/vta"
 	"golang.org/x/tools/go/packages"
 	"golang.org/x/tools/go/ssa"
 	"golang.org/x/tools/go/ssa/ssautil"
 )
 
 type View struct {
-	Name   string
-	Dir    string
-	Fset   *token.FileSet
-	Pkgs   []*packages.Package // root packages of the view
-	All    map[string]*packages.Package
-	Prog   *ssa.Program
-	SSA    map[string]*ssa.Package // by package path
-	cg     *callgraph.Graph
-	Config string
+	Name     string
+	Dir      string
+	Fset     *token.FileSet
+	Pkgs     []*packages.Package // root packages of the view
+	All      map[string]*packages.Package
+	Prog     *ssa.Program
+	SSA      map[string]*ssa.Package // by package path
+	cg       *callgraph.Graph
+	vtaSites map[ssa.CallInstruction][]*ssa.Function
+	Config   string
 }
 
 func env(goos, goarch string) []string {
@@ -187,6 +189,30 @@ func (v *View) CHA() *callgraph.Graph {
 		v.cg = cha.CallGraph(v.Prog)
 	}
 	return v.cg
+}
+
+// VTASites returns, for every call instruction of the functions of pkg, the
+// callees computed by the VTA call graph (seeded with CHA). Cached.
+func (v *View) VTASites(pkg *ssa.Package) map[ssa.CallInstruction][]*ssa.Function {
+	if v.vtaSites != nil {
+		return v.vtaSites
+	}
+	g := vta.CallGraph(ssautil.AllFunctions(v.Prog), v.CHA())
+	out := map[ssa.CallInstruction][]*ssa.Function{}
+	for fn, n := range g.Nodes {
+		if fn == nil || fn.Pkg != pkg {
+			if fn == nil || fn.Parent() == nil || fn.Package() != pkg {
+				continue
+			}
+		}
+		for _, e := range n.Out {
+			if e.Site != nil && e.Callee != nil && e.Callee.Func != nil {
+				out[e.Site] = append(out[e.Site], e.Callee.Func)
+			}
+		}
+	}
+	v.vtaSites = out
+	return out
 }
 
 // FileOf returns the syntax file containing pos among the root packages.
